@@ -15,7 +15,7 @@ func init() {
 	property("C04",
 		"Static conformance of the mechanisms that keep the output closed: every generated label reference (goto / case / goto_if) is written with the script name as prefix and an id that was registered with registerJumpChunk on every path before the write; chunk labels are rendered exactly for the entry chunk and registered chunks, each chunk once, with its own body; jump destinations are ids of chunks that were created and enqueued (never the 'no chunk' value); nothing is dropped or duplicated on the way (C01.b/c/d: statement conservation, unique ids, single enqueue); every chunk body ends in a goto/terminator or falls through only into the chunk rendered next (C01.f); the optimised order is a permutation (check-before-append); hoisted labels are defined (C06.c); label clash checks (C20.e). Label sets hold every chunk / every text (C20.e), hoisted movements are all added (C20.d), Emit is total (C10.f).",
 		[]string{"a rendered switch chunk is never the last chunk of either order (exemption for switchBranch.destChunkID)", "scheme argument of DESIGN §4 C01/C04"},
-		"C04.a", "C04.b", "C04.c", "C04.f", "C01.b", "C01.c", "C01.d", "C01.f", "C03.b", "C20.e", "C08.a", "C01.e", "C06.c", "C20.d", "C10.f", "C01.h", "C08.e", "C10.g")
+		"C04.a", "C04.b", "C04.c", "C04.f", "C01.b", "C01.c", "C01.d", "C01.f", "C03.b", "C20.e", "C08.a", "C01.e", "C06.c", "C20.d", "C10.f", "C01.h", "C08.e", "C10.g", "C13.b")
 	property("C05",
 		"Static conformance: the optimize flag is read only to choose the order in which the same chunk map is rendered (flag confinement), jump suppression is decided at render time against the actual next chunk (C01.f, both directions), every registered label is referenced on every path after its registration (no label without a reference), the order is a duplicate-free list starting at chunk 0 (C04.f) chosen without map-order dependence (C17.a). No emitter function writes an AST node or token, and New keeps its arguments unchanged (C05.a).",
 		[]string{"scheme argument of DESIGN §4 C05: with C01.f the text of each chunk transfers control to the same successors whatever the order"},
@@ -262,6 +262,86 @@ func c04b(c *Ctx) {
 		c.Check(ok, name+"/register-closure", c.W.Pos(closure.Pos()), "registerJumpChunk(id) records id in the jump set", "the register closure does not store jumpChunks[id] = true")
 	} else {
 		c.Bad(name+"/register-closure", c.W.FuncPos(fn), "cannot find the registerJumpChunk closure with its single captured map")
+	}
+	// the jump set is filled by the register closure and by nothing else: renderChunks itself only
+	// looks entries up, and the closure is only handed to renderBranching (it is the branch
+	// renderers that know what is jumped to)
+	if closure != nil && jumpMap != nil {
+		var bad []string
+		nUses := 0
+		var mapUses func(m ssa.Value, f *ssa.Function, inClosure bool)
+		mapUses = func(m ssa.Value, f *ssa.Function, inClosure bool) {
+			if m.Referrers() == nil {
+				return
+			}
+			for _, r := range *m.Referrers() {
+				nUses++
+				switch y := r.(type) {
+				case *ssa.Lookup, *ssa.DebugRef:
+				case *ssa.MapUpdate:
+					if !inClosure {
+						bad = append(bad, "entry written at "+c.W.Pos(y.Pos()))
+					}
+				case *ssa.MakeClosure:
+				case *ssa.Store:
+					if y.Val == m {
+						if _, isCell := y.Addr.(*ssa.Alloc); !isCell {
+							bad = append(bad, "the set is stored elsewhere at "+c.W.Pos(y.Pos()))
+						}
+					}
+				case *ssa.UnOp:
+					mapUses(y, f, inClosure)
+				case *ssa.Range:
+					// reading
+				default:
+					bad = append(bad, fmt.Sprintf("used by %T at %s", r, c.W.Pos(r.Pos())))
+				}
+			}
+		}
+		mapUses(jumpMap, fn, false)
+		if cell, isCell := jumpMap.(*ssa.Alloc); isCell {
+			// the value stored into the cell is a fresh map
+			for _, r := range *cell.Referrers() {
+				if st, ok := r.(*ssa.Store); ok && st.Addr == ssa.Value(cell) {
+					if _, isMk := st.Val.(*ssa.MakeMap); !isMk {
+						bad = append(bad, "the set is replaced at "+c.W.Pos(st.Pos()))
+					}
+				}
+			}
+		}
+		cf := closure.Fn.(*ssa.Function)
+		nUpd := 0
+		for _, fv := range cf.FreeVars {
+			mapUses(fv, cf, true)
+		}
+		instrs(cf, func(in ssa.Instruction) {
+			if _, isMU := in.(*ssa.MapUpdate); isMU {
+				nUpd++
+			}
+			if ci, isCall := in.(ssa.CallInstruction); isCall && calleeName(ci) == "builtin:delete" {
+				bad = append(bad, "the closure deletes at "+c.W.Pos(ci.Pos()))
+			}
+		})
+		if nUpd != 1 {
+			bad = append(bad, fmt.Sprintf("the closure updates the set %d times", nUpd))
+		}
+		// the closure's own uses
+		if closure.Referrers() != nil {
+			for _, r := range *closure.Referrers() {
+				switch y := r.(type) {
+				case *ssa.DebugRef:
+				case ssa.CallInstruction:
+					if y.Common().Value == ssa.Value(closure) {
+						bad = append(bad, "renderChunks registers a jump target itself at "+c.W.Pos(y.Pos()))
+					} else if callee(y) != rb {
+						bad = append(bad, "the register closure is handed to "+calleeName(y)+" at "+c.W.Pos(y.Pos()))
+					}
+				default:
+					bad = append(bad, fmt.Sprintf("the register closure is used by %T at %s", r, c.W.Pos(r.Pos())))
+				}
+			}
+		}
+		c.Check(len(bad) == 0 && nUses >= 3, name+"/jump-set-closed", c.W.Pos(closure.Pos()), "the jump set is written by the register closure only, and only the branch renderers register", "the set of chunks that get a label is tampered with outside the branch renderers: "+strings.Join(bad, "; ")+" (a label that is jumped to may be missing, or one nobody jumps to may appear)")
 	}
 	// label rendering
 	calls := callsToIn(fn, rl)
